@@ -53,7 +53,8 @@ Apply(fs, op) ==
       [] op.kind = "close"       -> IF Get(fs.pend, p) = NoPend THEN fs
                                     ELSE Set(Put(fs.c, p, Get(fs.pend, p)), Put(fs.pend, p, NoPend))
       [] op.kind = "remove"      -> Set(Put(fs.c, p, "Absent"), Put(fs.pend, p, NoPend))
-      [] op.kind = "rename"      -> [c |-> Put(Put(fs.c, op.p2, Get(fs.c, p)), p, "Absent"),
+      [] op.kind = "rename"      -> IF p = op.p2 THEN fs ELSE      \* renaming a file onto itself changes nothing
+                                    [c |-> Put(Put(fs.c, op.p2, Get(fs.c, p)), p, "Absent"),
                                      pend |-> Put(Put(fs.pend, op.p2, NoPend), p, NoPend),
                                      sz |-> Put(fs.sz, op.p2, GetSz(fs, p))]
       [] op.kind = "copy"        -> [c |-> Put(fs.c, p, Get(fs.c, op.p2)), pend |-> Put(fs.pend, p, NoPend),
